@@ -387,6 +387,12 @@ func Document(t *rapid.T, o DocOpts) *DocCase {
 			vals = FillResource(t, res, ts, label)
 		}
 
+		// A resource that is being created has no ID yet.
+		if rapid.IntRange(0, 9).Draw(t, label+"-noid") == 0 {
+			vals["id"] = ""
+			res.Set("id", "")
+		}
+
 		key := ts.Name + "\x00" + vals["id"].(string)
 
 		if usedIDs[key] {
@@ -569,6 +575,11 @@ func Document(t *rapid.T, o DocOpts) *DocCase {
 	// Included.
 	if !o.NoIncluded && rapid.IntRange(0, 2).Draw(t, "hasincluded") > 0 {
 		n := rapid.IntRange(1, Upto(t, "nincluded", 5)).Draw(t, "nincluded")
+
+		// Now and then a long list (as for primary data).
+		if rapid.IntRange(0, 24).Draw(t, "manyincluded") == 0 {
+			n = rapid.IntRange(30, 70).Draw(t, "nincluded-many")
+		}
 		for i := 0; i < n; i++ {
 			m, ok := narrowed(pick("inctype"), fmt.Sprintf("inc%d", i))
 			if !ok {
@@ -601,6 +612,15 @@ func Document(t *rapid.T, o DocOpts) *DocCase {
 			c.Included = append(c.Included, m)
 			c.Doc.Included = append(c.Doc.Included, m.Res)
 		}
+	}
+
+	// A document that went through UnmarshalDocument has an empty, non-nil
+	// Resources map; a hand-built one may have anything there.
+	switch rapid.IntRange(0, 5).Draw(t, "docresources") {
+	case 0:
+		c.Doc.Resources = map[string]map[string]struct{}{}
+	case 1:
+		c.Doc.Resources = map[string]map[string]struct{}{"zz-unrelated": {"1": {}}}
 	}
 
 	// Meta.
